@@ -255,6 +255,92 @@ func (r *replica) commit(si int) bool {
 	return true
 }
 
+const crashMarker = "verif: simulated crash before a durable write"
+
+// crashCommit kills the application inside OnCommit of the executed block after j groups of durable writes
+// (1 trie nodes, 2 + receipts/kv records, 3 + key history, 4 + lastreceipts; lastblock is never reached) and restarts it
+// on the same directories.  The positions are found on a scout replica that commits the same chain uninterrupted and
+// records the durable-write failpoints (gemmill/verifhook.Durable) OnCommit passes.
+func (r *replica) crashCommit(si, j int) bool {
+	action := fmt.Sprintf("CrashCommit(%d, h=%d)", j, len(r.chain)+1)
+	scout, err := evmutil.NewNode(10)
+	if err != nil {
+		r.fail(si, action, "error", false, "scout-node", err.Error(), nil, nil)
+		r.aborted = true
+		return false
+	}
+	var seq []string
+	ok := func() bool {
+		defer scout.Close()
+		for h, txs := range r.chain {
+			b := evmutil.MakeBlock(int64(h+1), txs)
+			if _, e, p, _ := scout.Execute(b); e != nil || p != nil {
+				return false
+			}
+			if _, e, p, _ := scout.Commit(b); e != nil || p != nil {
+				return false
+			}
+		}
+		b := evmutil.MakeBlock(int64(len(r.chain)+1), r.ptxs)
+		if _, e, p, _ := scout.Execute(b); e != nil || p != nil {
+			return false
+		}
+		verifhook.DurableFn = func(site string, key []byte) error {
+			seq = append(seq, site+":"+string(key))
+			return nil
+		}
+		_, e, p, _ := scout.Commit(b)
+		verifhook.DurableFn = nil
+		return e == nil && p == nil
+	}()
+	iLR, iLB := -1, -1
+	for i, x := range seq {
+		if strings.HasSuffix(x, ":lastreceipts") {
+			iLR = i
+		}
+		if strings.HasSuffix(x, ":lastblock") {
+			iLB = i
+		}
+	}
+	_, _, nh := r.node.App.VerifVolatile()
+	hist := 0
+	if nh > 0 {
+		hist = 1
+	}
+	rcpt := iLR - 1 - hist
+	if !ok || iLR < 1 || iLB != iLR+1 || rcpt < 0 {
+		r.fail(si, action, "error", false, "scout-sequence", fmt.Sprintf("unexpected durable-write sequence of OnCommit: %v", seq), nil, nil)
+		r.aborted = true
+		return false
+	}
+	at := map[int]int{1: rcpt, 2: rcpt + 1, 3: iLR, 4: iLB}[j]
+	n := 0
+	verifhook.DurableFn = func(site string, key []byte) error {
+		if n == at {
+			n++
+			panic(crashMarker)
+		}
+		n++
+		return nil
+	}
+	_, cerr, pnc, stack := r.node.Commit(r.pending)
+	verifhook.DurableFn = nil
+	r.rep.Checks++
+	if fmt.Sprint(pnc) != crashMarker {
+		r.fail(si, action, "error", false, "crash-not-reached", fmt.Sprintf("OnCommit did not reach durable write %d of %v: %v %v\n%s", at, seq, pnc, cerr, stack), nil, nil)
+		r.aborted = true
+		return false
+	}
+	r.rep.Count("crashes_in_commit")
+	if err := r.node.Restart(); err != nil {
+		r.fail(si, action, "error", true, "restart-failed", "Stop/NewEVMApp/Start after a crash inside OnCommit failed: "+err.Error(), nil, nil)
+		r.aborted = true
+		return false
+	}
+	r.pending = nil
+	return true
+}
+
 func resStr(res gtypes.Result) string {
 	return fmt.Sprintf("%d/%s", res.Code, hex.EncodeToString(res.Data))
 }
@@ -484,7 +570,7 @@ func isolatedReference(path string) {
 			out.Order = append(out.Order, r.key)
 			out.Commits[r.key] = commits[r.key].vals
 			out.Chains[r.key] = r.describe()
-		case "Restart":
+		case "Restart", "CrashCommit":
 			have = false
 		}
 	}
@@ -632,6 +718,21 @@ func main() {
 				if model && st.Post != nil {
 					r.compareVolatile(si, "Restart", 0, 0, 0)
 					r.compareModelState(si, "Restart", st.Post)
+				}
+			case "CrashCommit":
+				if r.pending == nil {
+					r.fail(si, "CrashCommit", "error", false, "", "CrashCommit without Execute in trace", nil, nil)
+					r.aborted = true
+					break
+				}
+				j := mbt.Int(st.Args[0])
+				if r.crashCommit(si, j) {
+					restartsAt = append(restartsAt, fmt.Sprintf("crash%d@%d", j, len(r.chain)+1))
+					r.who = fmt.Sprintf("primary of %s (restarts/crashes %v, verifier goroutines now %d)", tr.ID, restartsAt, r.routines)
+					if model && st.Post != nil {
+						r.compareVolatile(si, "CrashCommit", 0, 0, 0)
+						r.compareModelState(si, "CrashCommit", st.Post)
+					}
 				}
 			case "Query":
 				kind := mbt.Str(st.Args[0])
